@@ -584,6 +584,30 @@ def macro_wrap(lines, counts):
             l.text = t
 
 
+def macro_external(lines, counts):
+    """R8: the items generated by generic_bus! are marked external (Verus' front end panics on them; the bus
+    `set_value` is proved by Kani, Verus sees the `OutputBus` trait contract)."""
+    text = '\n'.join(l.text for l in lines)
+    if 'macro_rules! generic_bus' not in text:
+        return
+    i = text.index('macro_rules! generic_bus')
+    j = text.index('generic_bus! {', i)
+    m = text[i:j]
+    m2 = m
+    n = 0
+    for a in ('        pub struct $GenericxBitBus', '        impl<$($PX, )*> $GenericxBitBus', '        impl<$($PX, )* E> OutputBus',
+              '        impl<$($PX, )*> From<'):
+        if a in m2:
+            m2 = m2.replace(a, '        #[verifier::external] ' + a.strip(), 1)
+            n += 1
+    if n != 4:
+        raise Undecided('generic_bus! macro changed shape (R8 anchors: %d of 4)' % n)
+    text = text[:i] + m2 + text[j:]
+    counts['R8:generic_bus-output-external'] = n
+    for l, t in zip(lines, text.split('\n')):
+        l.text = t
+
+
 def extract(repo, verif, cfg, extra_external=()):
     """Returns (file text, line origins list, counts, report)."""
     counts = OrderedDict()
@@ -594,6 +618,7 @@ def extract(repo, verif, cfg, extra_external=()):
     drop_inline_mod(lines, '_mock', counts)
     apply_rewrites(lines, counts)
     macro_wrap(lines, counts)
+    macro_external(lines, counts)
     contracts, injections = load_contracts(os.path.join(verif, 'contracts', 'verus'))
     externals = load_externals(os.path.join(verif, 'contracts', 'verus', 'externals.txt'))
     report['externals'] = externals
